@@ -68,6 +68,7 @@ type Policy struct {
 	PoolCross  float64 `json:"pool_cross,omitempty"`
 	ClockJumpP float64 `json:"clock_jump_p,omitempty"`
 	TimerP     float64 `json:"timer_p,omitempty"` // per hand-off probability that a sleeping library goroutine's timer fires now
+	GCP        float64 `json:"gc_p,omitempty"`    // per hand-off probability of a forced garbage collection (the collector is otherwise off)
 }
 
 // Trace is the explicit decision record of one run: enough to replay it
@@ -100,6 +101,7 @@ type Faults struct {
 	CallerPanic int64 `json:"caller_panic"`
 	ColdStart   int64 `json:"cold_start"`
 	TimerFire   int64 `json:"timer_fire"`
+	GC          int64 `json:"gc"`
 }
 
 func (f *Faults) Add(o *Faults) {
@@ -113,6 +115,7 @@ func (f *Faults) Add(o *Faults) {
 	f.CallerPanic += o.CallerPanic
 	f.ColdStart += o.ColdStart
 	f.TimerFire += o.TimerFire
+	f.GC += o.GC
 }
 
 // RunResult is what one run produced.
@@ -194,6 +197,12 @@ func NewSim(exec func(api uint8, input string) (string, string)) *Sim {
 
 const inf = int64(math.MaxInt64 / 4)
 
+func cloneString(s string) string {
+	b := make([]byte, len(s))
+	copy(b, s)
+	return unsafe.String(unsafe.SliceData(b), len(b))
+}
+
 func (s *Sim) runSteps() int64 { return readSteps() - s.base }
 
 func (s *Sim) newTask(body func(t *Task)) *Task {
@@ -271,7 +280,9 @@ func (s *Sim) Run(spec *RunSpec) *RunResult {
 				Yield(0)
 				callBegin(t)
 				s0 := taskSteps(t)
-				out[j], raws[j] = exec(calls[j].API, calls[j].Input)
+				// every call gets its own freshly allocated copy of the input, like a
+				// request handler does: the copy becomes garbage when the call returns
+				out[j], raws[j] = exec(calls[j].API, cloneString(calls[j].Input))
 				cs[j] = taskSteps(t) - s0
 				callEnd(t)
 			}
@@ -334,6 +345,7 @@ func (s *Sim) Run(spec *RunSpec) *RunResult {
 			s.fair = true
 		}
 		s.maybeFireTimer()
+		s.maybeGC()
 		s.fireDueTimers()
 		t, budget := s.pick()
 		if t == nil {
@@ -778,6 +790,12 @@ func (s *Sim) pickExplicit(run []*Task) (*Task, int64) {
 		if s.segIdx >= len(segs) {
 			break
 		}
+		if segs[s.segIdx][0] == -2 {
+			// pseudo segment: forced garbage collection
+			s.forceGC()
+			s.segIdx++
+			continue
+		}
 		if segs[s.segIdx][0] < 0 {
 			// pseudo segment: the simulated clock advances (a timer fires / a sleeper wakes)
 			s.advanceClock(segs[s.segIdx][1])
@@ -1194,3 +1212,27 @@ func (s *Sim) chanClose(addr uintptr) int64 {
 	}
 	return 0
 }
+
+// ---------------------------------------------------------------- garbage collector seam
+
+// The worker switches the collector off (debug.SetGCPercent(-1)); collections
+// happen only where the scheduler decides (all task goroutines are parked
+// then), so which call's garbage is reclaimed - and which addresses get
+// reused - is a recorded decision.
+func (s *Sim) forceGC() {
+	s.res.Faults.GC++
+	s.res.Trace.Segs = append(s.res.Trace.Segs, [2]int64{-2, 1})
+	GCFunc()
+}
+
+func (s *Sim) maybeGC() {
+	if s.explicit || s.spec.Policy.GCP <= 0 || s.res.Faults.GC >= 2 {
+		return
+	}
+	if s.rng.Float() < s.spec.Policy.GCP {
+		s.forceGC()
+	}
+}
+
+// GCFunc performs the collection (set by the worker; simrt does not import runtime/debug).
+var GCFunc = func() {}
